@@ -11,14 +11,24 @@ from . import common, c12
 
 
 def run(ctx):
-    res = [("attr", c12.edge_run(ctx, "MCTracker_attr.cfg", "2 names x 1 channel, every attribute kind; every edge replayed, every returned value scribbled"))]
     n, depth = (300, 60) if ctx.quick() else (3000, 200)
-    res.append(("sim", c12.edge_run(ctx, "MCTracker_sim.cfg", "random behaviours over 7 names x 5 channels, returned values scribbled",
-                                    extra=["-simulate", "num=%d" % n, "-depth", str(depth), "-seed", str(ctx.seed)])))
+    plan = [("attr", "MCTracker_attr.cfg", "2 names x 1 channel, every attribute kind; every edge replayed, every returned value scribbled", ()),
+            ("sim", "MCTracker_sim.cfg", "random behaviours over 7 names x 5 channels, returned values scribbled",
+             ("-simulate", "num=%d" % n, "-depth", str(depth), "-seed", str(ctx.seed)))]
     if not ctx.quick():
-        res.append(("quick-closure", c12.edge_run(ctx, "MCTracker_quick.cfg", "closure 3 names x 2 channels; scribbled")))
-    for _, s in res:
-        c12.collect(ctx, s, "C14")
+        plan.append(("quick-closure", "MCTracker_quick.cfg", "closure 3 names x 2 channels; scribbled", ()))
+    res = []
+    for name, cfg, what, extra in plan:
+        s = c12.edge_run(ctx, cfg, what, extra=list(extra), scribble=True)
+        res.append((name, s))
+        if s["failures"]:
+            # is it the scribbling that makes the replay fail?  Re-run the same edges leaving the returned values alone.
+            clean = c12.edge_run(ctx, cfg, what + " (control run without scribbling)", extra=list(extra), scribble=False)
+            if clean["failures"] == 0:
+                c12.collect(ctx, s, "C14", all_kinds=True)
+            else:
+                ctx.notes["c12_failures_seen"] = "the replay also fails without scribbling (property C12's subject); only snapshot-specific failures are reported here"
+                c12.collect(ctx, s, "C14")
     scrib = sum(s["values_scribbled"] for _, s in res)
     frozen = sum(s["frozen_value_rechecks"] for _, s in res)
     if scrib == 0 or frozen == 0:
